@@ -5,6 +5,7 @@ import (
 	"math/rand/v2"
 	"slices"
 	"strings"
+	"sync"
 	"time"
 
 	"github.com/semafind/semadb/cluster"
@@ -110,10 +111,14 @@ func (c13) RunCase(c fw.Case, env *fw.Env) *fw.CaseResult {
 		key := genKey(rng, S)
 		sorted := slices.Clone(S)
 		slices.Sort(sorted)
+		before := slices.Clone(S)
 		base := cluster.RendezvousHash(key, S, len(S))
 		nt := len(S) >= 2
-		// determinism + does not mutate input
-		before := slices.Clone(S)
+		// determinism + does not mutate input (every node routes on its one shared server list)
+		if !slices.Equal(before, S) {
+			res.Violate("input-mutated", "mutates-server-list", fmt.Sprintf("key=%q the caller's server list was %v before the call and is %v after it", key, before, S), nil)
+			copy(S, before)
+		}
 		again := cluster.RendezvousHash(key, S, len(S))
 		res.Eval(nt, key, sorted, "determinism")
 		if !slices.Equal(base, again) || !slices.Equal(before, S) {
@@ -196,6 +201,51 @@ func (c13) RunCase(c fw.Case, env *fw.Env) *fw.CaseResult {
 		}
 		if it == 0 {
 			res.Sample(map[string]any{"key": key, "servers": S, "ranking": base})
+		}
+	}
+	// concurrent routing decisions on ONE shared server list (a node keeps a single list and starts a
+	// goroutine per shard): every decision must equal the one computed alone on a private copy
+	for round := 0; round < 4; round++ {
+		S := genServerSet(rng, 2+rng.IntN(15))
+		shared := slices.Clone(S)
+		keys := make([]string, 64)
+		want := make([]string, len(keys))
+		for i := range keys {
+			keys[i] = genKey(rng, S)
+			want[i] = owner(keys[i], slices.Clone(S))
+		}
+		got := make([][]string, 8)
+		var wg sync.WaitGroup
+		for g := 0; g < 8; g++ {
+			wg.Add(1)
+			go func(g int) {
+				defer wg.Done()
+				out := make([]string, 0, len(keys)*20)
+				for rep := 0; rep < 20; rep++ {
+					for i := range keys {
+						out = append(out, owner(keys[(i+g*7)%len(keys)], shared))
+					}
+				}
+				got[g] = out
+			}(g)
+		}
+		wg.Wait()
+		sorted := slices.Clone(S)
+		slices.Sort(sorted)
+		res.Eval(true, "concurrent-shared-list", sorted, round)
+		res.Stat("concurrent_decisions_on_a_shared_list", int64(8*20*len(keys)))
+		bad := 0
+		for g := range got {
+			for j, o := range got[g] {
+				i := (j%len(keys) + g*7) % len(keys)
+				if o != want[i] && bad < 3 {
+					bad++
+					res.Violate("concurrent-routing", "shared-list", fmt.Sprintf("key=%q servers=%v: owner computed alone %s, computed while other goroutines route on the same list %s", keys[i], S, want[i], o), nil)
+				}
+			}
+		}
+		if !slices.Equal(shared, S) {
+			res.Violate("input-mutated", "mutates-server-list", fmt.Sprintf("shared server list changed from %v to %v under concurrent routing", S, shared), nil)
 		}
 	}
 	// share: every server owns some of 20000*|S| keys; also shares are not wildly off
